@@ -74,6 +74,9 @@ def c01Handlers : List (String × Handler) := [
       | some (i, [ds]) => toHex (ffoHeader (num fc) i (num ds))
       | _ => "bad-op"
     | _ => "bad-op"),
+  ("ffodec", fun (a : List String) => match a with
+    | [d] => showRes (fun (r : Nat × InfoFork × Nat) => s!"{r.1} {infoStr r.2.1} {r.2.2}") (ffoDecode (hexb d))
+    | _ => "bad-op"),
   ("forkhdr", fun (a : List String) => match a with
     | [ty, sz] => toHex (forkHeader (hexb ty) (num sz))
     | _ => "bad-op"),
